@@ -583,3 +583,107 @@ Proof.
   apply (pass_finishes cst chain_poll c_drops I_chain2 chain_poll_ends ops (stot 0 scs) (chain_w0 scs) Hs); auto.
   unfold chain_w0, I_chain2. cbn [cs scripts mk_world c_idx c_n]. split; [reflexivity|]. split; [lia|]. split; [intros i _ Hi; apply Hg, Hi|apply Nat.le_refl].
 Qed.
+
+(* ---------------- wait_until: the deadline first, then the inner future / stream ---------------- *)
+(* the future form: deadline and inner future each scripted Pending* then Ready; the bound is the number of Pending answers still to come *)
+Definition I_wait (b: nat) (s: ust) (sc: list (list step)) : Prop :=
+  u_stream s = false /\ goodf (nth 1 sc []) = true /\ exists k1, lead (nth 1 sc []) = Some k1 /\
+  if u_started s then k1 <= b else goodf (nth 0 sc []) = true /\ exists k0, lead (nth 0 sc []) = Some k0 /\ k0 + k1 <= b.
+
+Lemma poll_direct_other {St} (w: W St) m pid j : j <> m -> nth j (scripts St (fst (poll_direct St w m pid))) [] = nth j (scripts St w) [].
+Proof.
+  intros Hne. pose proof (poll_direct_live w m pid) as H. destruct (poll_direct St w m pid) as [w' a]. destruct H as (_ & _ & _ & _ & _ & E). cbn [fst].
+  destruct (nth m (scripts St w) []); destruct E as [_ ->]; [reflexivity|apply nth_upd_other; auto].
+Qed.
+Lemma poll_direct_lead {St} (w: W St) m pid k : goodf (nth m (scripts St w) []) = true -> lead (nth m (scripts St w) []) = Some k ->
+  let '(w', a) := poll_direct St w m pid in
+  match k with
+  | 0 => exists r, a = AReady r
+  | S k' => a = APend /\ goodf (nth m (scripts St w') []) = true /\ lead (nth m (scripts St w') []) = Some k'
+  end.
+Proof.
+  intros Hg Hl. pose proof (poll_direct_live w m pid) as H. destruct (poll_direct St w m pid) as [w' a]. destruct H as (_ & _ & _ & _ & _ & E).
+  destruct (nth m (scripts St w) []) as [|x rest] eqn:En; [discriminate|]. destruct E as [-> E]. cbn [goodf lead] in Hg, Hl.
+  assert (Hm : m < length (scripts St w)) by (destruct (Nat.lt_ge_cases m (length (scripts St w))); auto; rewrite nth_overflow in En by assumption; discriminate).
+  destruct (answer x) as [|r|v| |]; try discriminate.
+  - destruct (lead rest) as [k'|] eqn:El; [|discriminate]. cbn in Hl. inversion Hl; subst. rewrite E, nth_upd_same by exact Hm. auto.
+  - inversion Hl; subst. eauto.
+Qed.
+
+Lemma wait_poll_live : forall b (w: W ust) pid np, I_wait b (cs _ w) (scripts _ w) -> finished _ w = false -> dropped _ w = false ->
+  let w' := wait_poll w pid np in
+  (returns ust w w' /\ Good ust I_wait b w') \/
+  (finished _ w' = false /\ dropped _ w' = false /\ exists b', b' < b /\ I_wait b' (cs _ w') (scripts _ w')).
+Proof.
+  intros b w pid np (Hs & Hg1 & k1 & Hl1 & Hb) Hf Hd. unfold wait_poll.
+  set (w0 := begin_p ust w pid np).
+  assert (H0 : cs _ w0 = cs _ w /\ scripts _ w0 = scripts _ w /\ tr _ w0 = tr _ w ++ [EB pid] /\ finished _ w0 = false /\ dropped _ w0 = false) by (unfold w0, begin_p; cbn; auto).
+  destruct H0 as (C0 & S0 & T0 & F0 & D0). rewrite C0.
+  (* the inner poll, from a world whose state says "started" *)
+  assert (Hinner : forall (w1: W ust) late, nth 1 (scripts _ w1) [] = nth 1 (scripts _ w) [] -> u_stream (cs _ w1) = false -> u_started (cs _ w1) = true ->
+            (exists u, tr _ w1 = tr _ w ++ u) -> finished _ w1 = false -> dropped _ w1 = false -> k1 <= b ->
+            let w' := (let '(w2, a) := poll_direct ust w1 1 pid in
+                       let w3 := emit ust w2 late in
+                       match a with
+                       | AReady (ROk v) | AReady (RErr v) => finish_p ust w3 (OVals [v]) true
+                       | AItem v => finish_p ust w3 (OSome None [v]) false
+                       | AEnd => finish_p ust w3 ONone true
+                       | APanic => unwind_p ust w3 [EDc 1; EDc 0]
+                       | _ => emit ust w3 [EEndP]
+                       end) in
+            (returns ust w w' /\ Good ust I_wait b w') \/
+            (finished _ w' = false /\ dropped _ w' = false /\ exists b', b' < b /\ I_wait b' (cs _ w') (scripts _ w'))).
+  { intros w1 late S1 U1 U2 [u Hu] F1 D1 Hk.
+    pose proof (poll_direct_lead w1 1 pid k1) as HL. rewrite S1 in HL. specialize (HL Hg1 Hl1).
+    pose proof (poll_direct_live w1 1 pid) as HP. destruct (poll_direct ust w1 1 pid) as [w2 a]. destruct HP as (A & B & C & [u2 Hu2] & _ & _).
+    destruct k1 as [|k1'].
+    - destruct HL as [r ->]. left.
+      assert (X : forall v, returns ust w (finish_p ust (emit ust w2 late) (OVals [v]) true) /\ Good ust I_wait b (finish_p ust (emit ust w2 late) (OVals [v]) true)).
+      { intros v. split.
+        - unfold returns, finish_p. exists (u ++ u2 ++ late), (OVals [v]). cbn [tr emit set_flags]. rewrite Hu2, Hu, <- !app_assoc. reflexivity.
+        - unfold Good, finish_p. cbn [finished dropped set_flags emit]. split; [congruence|left; reflexivity]. }
+      destruct r; apply X.
+    - destruct HL as (-> & Hg' & Hl'). right. cbn [finished dropped emit cs scripts]. split; [congruence|]. split; [congruence|].
+      exists k1'. split; [lia|]. unfold I_wait. rewrite A, U1, U2. split; [reflexivity|]. split; [exact Hg'|]. exists k1'. split; [exact Hl'|lia]. }
+  destruct (u_started (cs ust w)) eqn:Est.
+  - apply (Hinner w0 []).
+    + rewrite S0. reflexivity.
+    + rewrite C0. exact Hs.
+    + rewrite C0. exact Est.
+    + exists [EB pid]. exact T0.
+    + exact F0.
+    + exact D0.
+    + exact Hb.
+  - destruct Hb as (Hg0 & k0 & Hl0 & Hb).
+    pose proof (poll_direct_lead w0 0 pid k0) as HL. rewrite S0 in HL. specialize (HL Hg0 Hl0).
+    pose proof (poll_direct_other w0 0 pid 1 ltac:(lia)) as Ho. rewrite S0 in Ho.
+    pose proof (poll_direct_live w0 0 pid) as HP. destruct (poll_direct ust w0 0 pid) as [w1 a]. destruct HP as (A & B & C & [u1 Hu1] & _ & _). cbn [fst] in Ho.
+    destruct k0 as [|k0'].
+    + destruct HL as [r ->]. rewrite Hs.
+      assert (X : forall v, let w2 := emit ust (set_cs ust w1 {| u_stream := false; u_started := true |}) [EV v] in
+                nth 1 (scripts _ w2) [] = nth 1 (scripts _ w) [] /\ u_stream (cs _ w2) = false /\ u_started (cs _ w2) = true /\
+                (exists u, tr _ w2 = tr _ w ++ u) /\ finished _ w2 = false /\ dropped _ w2 = false).
+      { intros v w2. unfold w2. cbn [scripts cs emit set_cs tr finished dropped u_stream u_started]. split; [exact Ho|]. split; [reflexivity|]. split; [reflexivity|].
+        split; [exists ([EB pid] ++ u1 ++ [EV v]); rewrite Hu1, T0, <- !app_assoc; reflexivity|]. split; congruence. }
+      destruct r as [v|v]; destruct (X v) as (X1 & X2 & X3 & X4 & X5 & X6); apply (Hinner _ [] X1 X2 X3 X4 X5 X6); lia.
+    + destruct HL as (-> & Hg' & Hl'). right. cbn [finished dropped emit cs scripts]. split; [congruence|]. split; [congruence|].
+      exists (k0' + k1). split; [lia|]. unfold I_wait. rewrite A, C0, Hs, Est. split; [reflexivity|]. rewrite Ho. split; [exact Hg1|]. exists k1. split; [exact Hl1|].
+      split; [exact Hg'|]. exists k0'. split; [exact Hl'|lia].
+Qed.
+
+Definition wait_w0 (scs: list (list step)) : W ust := mk_world {| u_stream := false; u_started := false |} false 2 scs.
+(* the future form of wait_until, deadline and inner future each scripted Pending* then Ready: under EVERY schedule of waker invocations and polls
+   with more than k0 + k1 polls - the Pending answers of the deadline, then of the inner future - one of the first k0 + k1 + 1 polls has returned
+   the inner future's output (C19: the inner future is not polled before the deadline has resolved) *)
+Theorem wait_until_returns d i ops k0 k1 : goodf d = true -> goodf i = true -> lead d = Some k0 -> lead i = Some k1 -> sched ops -> k0 + k1 < npolls ops ->
+  exists ops1 p ops2, ops = ops1 ++ p :: ops2 /\ is_poll p = true /\ npolls ops1 <= k0 + k1 /\
+    let w1 := wait_world false [d; i] ops1 in
+    finished _ w1 = false /\ dropped _ w1 = false /\ returns ust w1 (p_step ust wait_poll u_drops w1 p).
+Proof.
+  intros Hgd Hgi Hld Hli Hs Hk. unfold wait_world. fold (wait_w0 [d; i]).
+  destruct (pass_returns ust wait_poll u_drops I_wait wait_poll_live ops (k0 + k1) (wait_w0 [d; i]) Hs) as (ops1 & p & ops2 & E1 & E2 & E3 & E4 & E5 & E6 & E7);
+    [|reflexivity|reflexivity|exact Hk|].
+  - unfold wait_w0, I_wait. cbn [cs scripts mk_world u_stream u_started nth]. split; [reflexivity|]. split; [exact Hgi|]. exists k1. split; [exact Hli|].
+    split; [exact Hgd|]. exists k0. split; [exact Hld|lia].
+  - exists ops1, p, ops2. split; [exact E1|]. split; [exact E2|]. split; [exact E3|]. cbn zeta. split; [exact E4|]. split; [exact E5|exact E6].
+Qed.
